@@ -336,7 +336,11 @@ func (s *handlerWriter) Write(buf []byte) (n int, err error) {
 		var pc uintptr
 		if s.capturePC {
 			// skip [runtime.Callers, s.Write, Logger.Output, log.Print]
-			pc = getpc(4, s.extraFrames)
+			extra := s.extraFrames
+			if sk, ok := s.l.(interface{ Skip() int }); ok {
+				extra += sk.Skip() // honour WithSkip/SetSkip of the underlying logger like every other entry point
+			}
+			pc = getpc(4, extra)
 		}
 		if h, ok := s.l.(LogLoggerAware); ok {
 			n, err = h.WriteInternal(context.Background(), s.lvl, pc, buf)
